@@ -395,42 +395,91 @@ def _check_templates(check, an: Analysis):
     check.instance('T', 'ResourceLevels.__ne__', ok, where_fn(spec),
                    '__ne__ is `not self == other`')
     # templates: element-wise with the given symbol; comparisons joined by `and`
+    def enclosing_loops(fn, target):
+        """loops / comprehension clauses whose body contains ``target``"""
+        found = []
+        for node in ast.walk(fn.node):
+            if isinstance(node, ast.For) and any(sub is target for stmt in node.body
+                                                 for sub in ast.walk(stmt)):
+                found.append((node.target, node.iter))
+            elif isinstance(node, (ast.ListComp, ast.GeneratorExp, ast.SetComp)) and any(
+                    sub is target for sub in ast.walk(node.elt)):
+                for gen in node.generators:
+                    found.append((gen.target, gen.iter))
+        return found
+
+    def field_kind(fn, expr, site, names_param):
+        """'first' / 'rest' / 'all' when ``expr`` denotes a field name of ``names``"""
+        resolved = rules.expand_alias(expr, fn)
+        if resolved == '%s[0]' % names_param:
+            return 'first'
+        if isinstance(expr, ast.Name):
+            for target, source in enclosing_loops(fn, site):
+                if isinstance(target, ast.Name) and target.id == expr.id:
+                    src = rules.expand_alias(source, fn)
+                    if src == names_param:
+                        return 'all'
+                    if src == '%s[1:]' % names_param:
+                        return 'rest'
+        return None
+    coverage = {}
     for maker, joiner in (('__binary_op__', None), ('__comparison_op__', 'and')):
         fn = an.fn('%s.%s' % (LEVELS_MOD, maker))
         params = [a.arg for a in fn.node.args.args]
-        elementwise, joined, n_lines = False, joiner is None, 0
+        elementwise, joined, n_lines = True, True, 0
+        kinds = set()
         for node in ast.walk(fn.node):
-            if isinstance(node, ast.JoinedStr):
-                parts = []
-                for value in node.values:
-                    if isinstance(value, ast.Constant):
-                        parts.append(value.value)
-                    elif isinstance(value, ast.FormattedValue):
-                        parts.append('{%s}' % ast.unparse(value.value))
-                text = ''.join(parts)
-                if 'self.' in text and 'other.' in text:
-                    n_lines += 1
-                    compact = text.replace(' ', '')
-                    if 'self.{name}{%s}other.{name}' % params[1] in compact or \
-                            'self.{names[0]}{%s}other.{names[0]}' % params[1] in compact:
-                        elementwise = True
+            if not isinstance(node, ast.JoinedStr):
+                continue
+            parts, fields = [], []
+            for value in node.values:
+                if isinstance(value, ast.Constant):
+                    parts.append(value.value)
+                elif isinstance(value, ast.FormattedValue):
+                    if ast.unparse(value.value) == params[1]:
+                        parts.append('{op}')
                     else:
-                        elementwise = False
-                        break
-                    if joiner and '{name}' in text:
-                        joined = text.strip().startswith(joiner + ' ')
+                        kind = field_kind(fn, value.value, node, params[2])
+                        fields.append((ast.unparse(value.value), kind))
+                        parts.append('{F}' if kind else '{?}')
+            text = ''.join(parts)
+            if 'self.' not in text or 'other.' not in text:
+                continue
+            n_lines += 1
+            compact = text.replace(' ', '')
+            same_field = len(fields) >= 2 and len({f for f in fields
+                                                   if 'self' not in f[0]}) == 1
+            body = compact
+            if joiner and body.startswith(joiner + 'self.'):
+                body = body[len(joiner):]
+            elif joiner and fields and fields[0][1] != 'first':
+                joined = False  # a further operand that is not and-ed
+            body = body.rstrip(',')
+            if joiner is None and body.startswith('{F}='):
+                body = body[len('{F}='):]
+            if body != 'self.{F}{op}other.{F}' or not same_field:
+                elementwise = False
+            kinds |= {k for _t, k in fields}
+        coverage[maker] = kinds
         check.instance('T', 'template:%s' % maker, elementwise and joined and n_lines > 0,
                        where_fn(fn),
                        'every generated line applies the operator symbol to the same field '
                        'of self and other%s' % (' and lines are joined with `and`'
                                                 if joiner else ''))
-    # every field takes part: the generators iterate all `names`
+    # every field takes part: the generators run over all `names`
     for maker in ('__binary_op__', '__comparison_op__', '__make_init__'):
         fn = an.fn('%s.%s' % (LEVELS_MOD, maker))
-        iters = [n for n in ast.walk(fn.node) if isinstance(n, ast.comprehension)]
-        texts = [ast.unparse(c.iter) for c in iters]
-        ok = bool(iters) and all(t in ('names', 'names[1:]') for t in texts)
+        names_param = [a.arg for a in fn.node.args.args][-1]
+        sources = set()
+        for node in ast.walk(fn.node):
+            if isinstance(node, ast.For):
+                sources.add(rules.expand_alias(node.iter, fn))
+            elif isinstance(node, ast.comprehension):
+                sources.add(rules.expand_alias(node.iter, fn))
         if maker == '__comparison_op__':
-            ok = ok and 'names[1:]' in texts
+            ok = sources == {'%s[1:]' % names_param} and \
+                coverage.get(maker) == {'first', 'rest'}
+        else:
+            ok = sources == {names_param}
         check.instance('T', 'template:%s:all-fields' % maker, ok, where_fn(fn),
-                       'generated code iterates over all field names: %s' % texts)
+                       'generated code runs over all field names: %s' % sorted(sources))
